@@ -1,0 +1,15 @@
+//go:build verif
+
+package admin
+
+// Machine-checked contracts for the gowp verifier (/verif). Comment-only; compiled only under the
+// build tag "verif"; declares nothing.
+
+// Sub-command handlers (registered under SubCommands in Commands()): sugardb.handleCommand selects one only for a command of
+// at least two words (its subcmd-arity assertion).
+//@ func handleCommandCount props C12
+//@   requires subcommand: len(params.Command) >= 2
+//@ func handleCommandDocs props C12
+//@   requires subcommand: len(params.Command) >= 2
+//@ func handleCommandList props C12
+//@   requires subcommand: len(params.Command) >= 2
